@@ -657,6 +657,7 @@ func (p *SelectForm) typecheckForm(gammaNameTypesCtx NamesTypesCtx, providerShad
 
 			// Set types
 			p.to_c.Type = clientBranchCaseType
+			continuationType = types.Unfold(continuationType, labelledTypesEnv)
 			p.continuation_c.Type = continuationType
 		} else {
 			return TypeErrorf("could not match label '%s' (from '%s') with the labels from the type '%s'", p.label.String(), p.String(), clientBranchCaseType.String())
